@@ -67,7 +67,10 @@ def idx(r, size_hint=4, forms=("int", "list", "range", "slice", "all", "mask", "
     if f == "range":
         return {"t": "range", "a": r.randrange(64), "b": r.randrange(64)}
     if f == "slice":
-        return {"t": "slice", "b": r.randrange(64)}
+        k = r.random()
+        if k < 0.4:
+            return {"t": "slice", "b": r.randrange(64)}
+        return {"t": "slice", "a": r.randrange(64), "b": r.randrange(64), "open": k > 0.8}
     if f == "mask":
         return {"t": "mask", "bits": [r.randrange(2) for _ in range(r.randint(2, 6))]}
     return "all"
